@@ -181,8 +181,12 @@ def judgePoints (op : Op) (m : Dy) (pts : List DPt) (a b r : DPoly) : String :=
   if validateGeneral mm A B R op ps then
     let j := judged mm A B R ps
     if j == 0 then "unjudged no-sample-point-keeps-the-margin"
-    else if emptyCert op A B then s!"valid {j} empty-certified" else s!"valid {j}"
+    else if emptyCert op A B then s!"valid {j} empty-certified"
+    else if emptyJudged op A B then s!"valid {j} empty-judged"
+    else s!"valid {j}"
   else if !(validateEmpty A B R op) then "invalid nonempty-result-for-certified-empty-region"
+  else if !(validateEmptyJudged A B R op) then
+    "invalid nonempty-result-for-" ++ (if op == .inter then "disjoint-operands(noContact)" else "covered-receiver(containedIn)")
   else match firstBadPoint mm A B R op ps with
     | some p => s!"invalid point {showPt p emin} R={b01 (inside R p)} A={b01 (inside A p)} B={b01 (inside B p)}"
     | none => "invalid"
